@@ -1,3 +1,593 @@
 package main
 
-func checkMain(args []string) int { return 2 }
+// `gosym check <property>`: builds the overlay, explores every harness entry of the property,
+// replays counterexamples natively, matches known findings, writes evidence, sets the exit code.
+
+import (
+	"encoding/json"
+	"fmt"
+	"math/rand"
+	"os"
+	"os/exec"
+	"path/filepath"
+	"regexp"
+	"sort"
+	"strconv"
+	"strings"
+	"time"
+)
+
+const modRoot = "github.com/biscuit-auth/biscuit-go/v2"
+
+type EntrySpec struct {
+	Pkg      string         // "datalog", "biscuit", "parser"
+	Func     string
+	Quick    map[string]int // parameters (vParam) for quick tier; nil => entry skipped in quick
+	Thorough map[string]int
+	Covers   []string // cover points that must be reached
+	Solver   string   // default z3-new
+	MaxSteps int
+	NoConcolic bool
+	Race     bool // replay with -race
+}
+
+type CheckSpec struct {
+	Prop     string
+	Harness  []string // files under /verif/harness
+	Entries  []EntrySpec
+	Assumptions []string
+	Models   []string
+	Explanation string
+	LevelText string
+	LevelNote string
+	DesignRef string
+	Disabled  bool
+}
+
+type KnownFinding struct {
+	Property string `json:"property"`
+	Status   string `json:"status"` // "known" or "fixed"
+	Pattern  string `json:"pattern"`
+	What     string `json:"what"`
+	Commit   string `json:"commit,omitempty"`
+}
+
+func pkgDir(pkg string) string {
+	switch pkg {
+	case "biscuit":
+		return ""
+	}
+	return pkg
+}
+
+func pkgPath(pkg string) string {
+	if pkg == "biscuit" {
+		return modRoot
+	}
+	return modRoot + "/" + pkg
+}
+
+func verifRoot() string {
+	if v := os.Getenv("VERIF_ROOT"); v != "" {
+		return v
+	}
+	return "/verif"
+}
+
+func repoRoot() string {
+	if v := os.Getenv("VERIF_REPO"); v != "" {
+		return v
+	}
+	return "/repo"
+}
+
+var pkgClauseRe = regexp.MustCompile(`(?m)^package (\w+)`)
+
+// buildOverlay returns (symbolic overlay, native overlay file map rel->content, entries per pkg)
+func buildOverlay(spec *CheckSpec) (map[string][]byte, map[string][]byte, error) {
+	hdir := filepath.Join(verifRoot(), "harness")
+	sym := map[string][]byte{}
+	nat := map[string][]byte{}
+	pkgs := map[string]bool{}
+	files := append([]string{"models_datalog.go"}, spec.Harness...)
+	for _, f := range files {
+		b, err := os.ReadFile(filepath.Join(hdir, f))
+		if err != nil {
+			return nil, nil, err
+		}
+		m := pkgClauseRe.FindSubmatch(b)
+		if m == nil {
+			return nil, nil, fmt.Errorf("%s: no package clause", f)
+		}
+		pkg := string(m[1])
+		pkgs[pkg] = true
+		rel := filepath.Join(pkgDir(pkg), "zz_verif_"+strings.TrimSuffix(f, ".go")+".go")
+		sym[rel] = b
+		// native: harness goes into a _test file so that it can use the test-only intrinsics
+		nat[filepath.Join(pkgDir(pkg), "zz_verif_"+strings.TrimSuffix(f, ".go")+"_test.go")] = b
+	}
+	intr, err := os.ReadFile(filepath.Join(hdir, "intrinsics.go.tmpl"))
+	if err != nil {
+		return nil, nil, err
+	}
+	natIntr, err := os.ReadFile(filepath.Join(hdir, "intrinsics_native.go.tmpl"))
+	if err != nil {
+		return nil, nil, err
+	}
+	for pkg := range pkgs {
+		sym[filepath.Join(pkgDir(pkg), "zz_verif_intrinsics.go")] = []byte(strings.Replace(string(intr), "package PKG", "package "+pkg, 1))
+		var sb strings.Builder
+		sb.WriteString("package " + pkg + "\n\nvar vEntries = map[string]func(){\n")
+		for _, e := range spec.Entries {
+			if e.Pkg == pkg {
+				fmt.Fprintf(&sb, "\t%q: %s,\n", e.Func, e.Func)
+			}
+		}
+		sb.WriteString("}\n")
+		nat[filepath.Join(pkgDir(pkg), "zz_verif_intrinsics_test.go")] = []byte(strings.Replace(string(natIntr), "package PKG", "package "+pkg, 1))
+		nat[filepath.Join(pkgDir(pkg), "zz_verif_entries_test.go")] = []byte(sb.String())
+	}
+	return sym, nat, nil
+}
+
+type replayCase struct {
+	Entry   string         `json:"entry"`
+	Values  []string       `json:"values"`
+	Choices []int          `json:"choices"`
+	Params  map[string]int `json:"params"`
+}
+
+type replayOut struct {
+	Lines   []string
+	Began   bool
+	Ended   bool
+}
+
+// nativeRun executes cases natively (go test with overlay) for one package. Returns per-case outputs and raw output.
+func nativeRun(nat map[string][]byte, pkg string, cases []replayCase, race bool, workDir string, timeout time.Duration) ([]replayOut, string, error) {
+	os.MkdirAll(workDir, 0o755)
+	repl := map[string]string{}
+	i := 0
+	for rel, content := range nat {
+		p := filepath.Join(workDir, fmt.Sprintf("ov_%d_%s", i, filepath.Base(rel)))
+		i++
+		if err := os.WriteFile(p, content, 0o644); err != nil {
+			return nil, "", err
+		}
+		repl[filepath.Join(repoRoot(), rel)] = p
+	}
+	ovj, _ := json.Marshal(map[string]interface{}{"Replace": repl})
+	ovPath := filepath.Join(workDir, "overlay.json")
+	os.WriteFile(ovPath, ovj, 0o644)
+	cj, _ := json.Marshal(cases)
+	casesPath := filepath.Join(workDir, "cases.json")
+	os.WriteFile(casesPath, cj, 0o644)
+	args := []string{"test", "-vet=off", "-count=1", "-overlay", ovPath, "-run", "^TestVerifReplay$", "-v", "-timeout", fmt.Sprintf("%ds", int(timeout.Seconds()))}
+	if race {
+		args = append(args, "-race")
+	}
+	dir := "./" + pkgDir(pkg)
+	if pkgDir(pkg) == "" {
+		dir = "."
+	}
+	args = append(args, dir)
+	cmd := exec.Command("go", args...)
+	cmd.Dir = repoRoot()
+	cmd.Env = append(os.Environ(), "GOFLAGS=-mod=mod", "GOPROXY=off", "GOSUMDB=off", "GOTOOLCHAIN=local", "VERIF_CASES="+casesPath)
+	outB, err := cmd.CombinedOutput()
+	out := string(outB)
+	res := make([]replayOut, len(cases))
+	cur := -1
+	for _, ln := range strings.Split(out, "\n") {
+		ln = strings.TrimRight(ln, "\r")
+		if strings.HasPrefix(ln, "VCASE-BEGIN ") {
+			cur, _ = strconv.Atoi(strings.TrimPrefix(ln, "VCASE-BEGIN "))
+			if cur >= 0 && cur < len(res) {
+				res[cur].Began = true
+			}
+			continue
+		}
+		if strings.HasPrefix(ln, "VCASE-END ") {
+			if cur >= 0 && cur < len(res) {
+				res[cur].Ended = true
+			}
+			cur = -1
+			continue
+		}
+		if cur >= 0 && cur < len(res) {
+			res[cur].Lines = append(res[cur].Lines, ln)
+		}
+	}
+	return res, out, err
+}
+
+func loadKnown() []KnownFinding {
+	b, err := os.ReadFile(filepath.Join(verifRoot(), "known_findings.json"))
+	if err != nil {
+		return nil
+	}
+	var k struct {
+		Findings []KnownFinding `json:"findings"`
+	}
+	json.Unmarshal(b, &k)
+	return k.Findings
+}
+
+func (f *AssertFail) signature() string {
+	return f.ID + "|" + f.Kind + "|" + normalizeDetail(f.Detail) + "|" + strings.Join(f.Labels, ",")
+}
+
+func checkMain(args []string) int {
+	if len(args) < 1 {
+		fmt.Println("usage: gosym check <property> [-tier quick|thorough]")
+		return 2
+	}
+	prop := args[0]
+	tier := os.Getenv("VERIF_TIER")
+	for i := 1; i < len(args); i++ {
+		if args[i] == "-tier" && i+1 < len(args) {
+			tier = args[i+1]
+			i++
+		}
+	}
+	if tier != "thorough" {
+		tier = "quick"
+	}
+	seed := int64(1)
+	if s := os.Getenv("VERIF_SEED"); s != "" {
+		if v, err := strconv.ParseInt(s, 10, 64); err == nil {
+			seed = v
+		}
+	}
+	spec := findCheck(prop)
+	if spec == nil {
+		fmt.Printf("no check registered for %s\n", prop)
+		return 2
+	}
+	t0 := time.Now()
+	sym, nat, err := buildOverlay(spec)
+	if err != nil {
+		fmt.Println("cannot build overlay:", err)
+		return 2
+	}
+	ov := map[string][]byte{}
+	for rel, c := range sym {
+		ov[filepath.Join(repoRoot(), rel)] = c
+	}
+	P, err := LoadProgram(repoRoot(), ov, []string{".", "./datalog", "./parser"})
+	if err != nil {
+		fmt.Println("CANNOT-RUN: harness does not load against the current tree:", err)
+		return 2
+	}
+	P.countFns = true
+	P.debugAbort = true
+	loadT := time.Since(t0)
+	workers := 16
+	if s := os.Getenv("VERIF_WORKERS"); s != "" {
+		workers, _ = strconv.Atoi(s)
+	}
+
+	type entryRun struct {
+		spec   EntrySpec
+		params map[string]int
+		res    *RunResult
+	}
+	var runs []*entryRun
+	exit := 0
+	problems := []string{}
+	for _, e := range spec.Entries {
+		params := e.Quick
+		if tier == "thorough" {
+			params = e.Thorough
+			if params == nil {
+				params = e.Quick
+			}
+		}
+		if params == nil {
+			continue
+		}
+		fn := P.findFunc(pkgPath(e.Pkg), e.Func)
+		if fn == nil {
+			fmt.Printf("CANNOT-RUN: entry %s.%s not found\n", e.Pkg, e.Func)
+			return 2
+		}
+		solver := e.Solver
+		if solver == "" {
+			solver = "z3-new"
+		}
+		tmo := 10000
+		if tier == "thorough" {
+			tmo = 60000
+		}
+		maxSteps := e.MaxSteps
+		if maxSteps == 0 {
+			maxSteps = 3000000
+		}
+		res := P.Explore(RunConfig{Entry: fn, Workers: workers, Solver: solver, TimeoutMs: tmo, MaxSteps: maxSteps, MaxPaths: 2000000, Params: params})
+		runs = append(runs, &entryRun{e, params, res})
+		fmt.Printf("[%s] %s.%s %v: paths=%d steps=%d %v queries=%d (sat %d unsat %d unknown %d) solver=%.1fs wall=%.1fs\n",
+			prop, e.Pkg, e.Func, params, res.Paths, res.Steps, res.ByStatus, res.Queries, res.NSat, res.NUnsat, res.NUnknown, res.SolveTime.Seconds(), res.Wall.Seconds())
+		if len(res.EngineErrors) > 0 {
+			problems = append(problems, "engine error in "+e.Func+": "+res.EngineErrors[0])
+		}
+		if res.Incomplete != "" {
+			problems = append(problems, "incomplete exploration of "+e.Func+": "+res.Incomplete)
+		}
+		for r, n := range res.AbortReasons {
+			problems = append(problems, fmt.Sprintf("%d path(s) of %s left the modelled fragment: %s", n, e.Func, r))
+		}
+		if n := res.ByStatus["deadlock"]; n > 0 {
+			problems = append(problems, fmt.Sprintf("%d path(s) of %s deadlocked the harness thread", n, e.Func))
+		}
+		for _, c := range e.Covers {
+			if res.Covers[c] == 0 {
+				problems = append(problems, fmt.Sprintf("vacuity: cover point %q of %s not reached", c, e.Func))
+			}
+		}
+		for _, se := range res.SolverErrors {
+			problems = append(problems, "solver: "+se)
+			break
+		}
+	}
+
+	// ---- failures: dedup, replay, classify
+	known := loadKnown()
+	type group struct {
+		sig   string
+		fails []*AssertFail
+		entry *entryRun
+	}
+	groups := map[string]*group{}
+	var order []string
+	for _, r := range runs {
+		for _, f := range r.res.Fails {
+			f.Entry = r.spec.Func
+			s := f.signature()
+			g := groups[s]
+			if g == nil {
+				g = &group{sig: s, entry: r}
+				groups[s] = g
+				order = append(order, s)
+			}
+			if len(g.fails) < 3 {
+				g.fails = append(g.fails, f)
+			}
+		}
+	}
+	sort.Strings(order)
+	outDir := filepath.Join(verifRoot(), "out", "replay")
+	os.MkdirAll(outDir, 0o755)
+	violations := 0
+	knownHits := 0
+	unreplayable := 0
+	var violationLines []string
+	replayedOK := 0
+	doReplay := os.Getenv("VERIF_NO_REPLAY") == ""
+	for gi, s := range order {
+		g := groups[s]
+		// known?
+		var kf *KnownFinding
+		for i := range known {
+			k := &known[i]
+			if k.Property != prop || k.Status != "known" {
+				continue
+			}
+			if re, err := regexp.Compile(k.Pattern); err == nil && re.MatchString(s) {
+				kf = k
+				break
+			}
+		}
+		// native replay
+		reproduced := false
+		replayNote := ""
+		var usedCase replayCase
+		if doReplay {
+			for _, f := range g.fails {
+				if len(f.Values) == 0 && len(f.Inputs) != 0 {
+					continue
+				}
+				c := replayCase{Entry: g.entry.spec.Func, Values: f.Values, Choices: f.Choices, Params: g.entry.params}
+				wd := filepath.Join(verifRoot(), "out", "work", fmt.Sprintf("%s-%d", prop, gi))
+				outs, raw, _ := nativeRun(nat, g.entry.spec.Pkg, []replayCase{c}, f.Kind == "race" || g.entry.spec.Race, wd, 120*time.Second)
+				ok, note := judgeReplay(f, outs[0], raw)
+				replayNote = note
+				if ok {
+					reproduced = true
+					usedCase = c
+					break
+				}
+				usedCase = c
+			}
+		} else {
+			reproduced = true
+			replayNote = "replay disabled"
+			usedCase = replayCase{Entry: g.entry.spec.Func, Values: g.fails[0].Values, Choices: g.fails[0].Choices, Params: g.entry.params}
+		}
+		path := filepath.Join(outDir, fmt.Sprintf("%s-%d.json", prop, gi))
+		rj, _ := json.MarshalIndent(map[string]interface{}{"property": prop, "signature": s, "case": usedCase, "package": g.entry.spec.Pkg, "detail": g.fails[0].Detail, "model": g.fails[0].Model, "reproduced_natively": reproduced, "replay_note": replayNote}, "", " ")
+		os.WriteFile(path, rj, 0o644)
+		switch {
+		case !reproduced:
+			unreplayable++
+			fmt.Printf("INCONCLUSIVE unreplayable: property=%s %s (%s)\n", prop, s, replayNote)
+		case kf != nil:
+			knownHits++
+			replayedOK++
+			fmt.Printf("KNOWN-FINDING: property=%s %s [%s]\n", prop, kf.What, s)
+		default:
+			violations++
+			replayedOK++
+			violationLines = append(violationLines, fmt.Sprintf("VIOLATION property=%s replay=%s", prop, path))
+			fmt.Printf("  violation: %s\n", s)
+		}
+	}
+
+	// ---- concolic cross-check of a sample of completed paths
+	validated, mismatches := 0, 0
+	if doReplay {
+		rng := rand.New(rand.NewSource(seed))
+		for _, r := range runs {
+			if r.spec.NoConcolic {
+				continue
+			}
+			cands := r.res.ObsPaths
+			var pick []*PathResult
+			for _, p := range cands {
+				if p.WitnessNames != nil || len(p.Inputs) == 0 {
+					pick = append(pick, p)
+				}
+			}
+			rng.Shuffle(len(pick), func(i, j int) { pick[i], pick[j] = pick[j], pick[i] })
+			n := 12
+			if tier == "thorough" {
+				n = 40
+			}
+			if len(pick) > n {
+				pick = pick[:n]
+			}
+			if len(pick) == 0 {
+				continue
+			}
+			var cases []replayCase
+			for _, p := range pick {
+				cases = append(cases, replayCase{Entry: r.spec.Func, Values: p.WitnessVals, Choices: p.Choices, Params: r.params})
+			}
+			wd := filepath.Join(verifRoot(), "out", "work", fmt.Sprintf("%s-concolic-%s", prop, r.spec.Func))
+			outs, raw, _ := nativeRun(nat, r.spec.Pkg, cases, false, wd, 300*time.Second)
+			for i, p := range pick {
+				want := expectedLines(p)
+				got := observedLines(outs[i])
+				if outs[i].Ended && equalLines(want, got) {
+					validated++
+				} else {
+					mismatches++
+					if mismatches <= 3 {
+						fmt.Printf("CONCOLIC-MISMATCH %s case %d:\n  interpreter: %v\n  native:      %v\n", r.spec.Func, i, want, got)
+						if !outs[i].Began {
+							fmt.Println(tail(raw, 30))
+						}
+					}
+				}
+			}
+		}
+		if mismatches > 0 {
+			problems = append(problems, fmt.Sprintf("%d concolic cross-check mismatch(es): interpreter or environment model disagrees with the real build", mismatches))
+		}
+	}
+
+	// ---- evidence
+	var evs []evRun
+	for _, r := range runs {
+		evs = append(evs, buildEvRun(prop, r.spec, r.params, r.res))
+	}
+	writeEvidenceFile(spec, tier, seed, evs, validated, violations, knownHits, unreplayable, problems, loadT, time.Since(t0))
+
+	for _, p := range problems {
+		fmt.Println("PROBLEM:", p)
+	}
+	for _, l := range violationLines {
+		fmt.Println(l)
+	}
+	if violations > 0 {
+		exit = 1
+	} else if len(problems) > 0 {
+		exit = 2
+	}
+	fmt.Printf("[%s] tier=%s violations=%d known=%d unreplayable=%d validated=%d wall=%.1fs exit=%d\n", prop, tier, violations, knownHits, unreplayable, validated, time.Since(t0).Seconds(), exit)
+	return exit
+}
+
+func tail(s string, n int) string {
+	ls := strings.Split(s, "\n")
+	if len(ls) > n {
+		ls = ls[len(ls)-n:]
+	}
+	return strings.Join(ls, "\n")
+}
+
+func expectedLines(p *PathResult) []string {
+	var out []string
+	for _, o := range p.Observations {
+		if strings.HasSuffix(o, "=?") {
+			continue
+		}
+		out = append(out, "VOBS "+o)
+	}
+	for _, c := range p.Covers {
+		out = append(out, "VCOVER "+c)
+	}
+	sort.Strings(out)
+	return out
+}
+
+func observedLines(o replayOut) []string {
+	var out []string
+	for _, l := range o.Lines {
+		if strings.HasPrefix(l, "VOBS ") || strings.HasPrefix(l, "VCOVER ") || strings.HasPrefix(l, "VASSERT-FAIL") || strings.HasPrefix(l, "VASSUME-FAIL") || l == "VEXHAUSTED" {
+			out = append(out, l)
+		}
+	}
+	sort.Strings(out)
+	return out
+}
+
+func equalLines(a, b []string) bool {
+	// observations with unknown value in the interpreter ("=?") were dropped from a; drop same tags from b
+	if len(a) != len(b) {
+		return false
+	}
+	for i := range a {
+		if a[i] != b[i] {
+			return false
+		}
+	}
+	return true
+}
+
+// judgeReplay decides whether the native run reproduces the failure.
+func judgeReplay(f *AssertFail, o replayOut, raw string) (bool, string) {
+	for _, l := range o.Lines {
+		if l == "VASSUME-FAIL" {
+			return false, "an assumption does not hold natively"
+		}
+	}
+	switch f.Kind {
+	case "assert":
+		for _, l := range o.Lines {
+			if l == "VASSERT-FAIL "+f.ID {
+				return true, "assertion fails natively"
+			}
+		}
+		if !o.Ended && (strings.Contains(raw, "panic:") || strings.Contains(raw, "fatal error:")) {
+			return false, "native run crashed before the assertion"
+		}
+		return false, "assertion holds natively"
+	case "panic":
+		if o.Began && !o.Ended && (strings.Contains(raw, "panic:") || strings.Contains(raw, "fatal error:")) {
+			return true, "process crashes natively: " + firstPanicLine(raw)
+		}
+		return false, "no crash natively"
+	case "stranded":
+		for _, l := range o.Lines {
+			if strings.HasPrefix(l, "VSTRANDED ") {
+				return true, "goroutines left blocked natively: " + l
+			}
+		}
+		return false, "no goroutine left natively"
+	case "race":
+		if strings.Contains(raw, "WARNING: DATA RACE") {
+			return true, "race detector reports a data race"
+		}
+		return false, "race detector silent"
+	}
+	return false, "unknown failure kind"
+}
+
+func firstPanicLine(raw string) string {
+	for _, l := range strings.Split(raw, "\n") {
+		if strings.HasPrefix(l, "panic:") || strings.HasPrefix(l, "fatal error:") {
+			return l
+		}
+	}
+	return ""
+}
